@@ -21,8 +21,14 @@ READS = ["v = o.x", "v = o.x + {k}", "v = (o.x, o.x)", "v = [o.x for _ in range(
 COMPARES = ["v = o.x {c} {k}", "v = {k} {c} o.x", "assert o.x {c} {k} or True", "v = o.x {c} o.x",
             "if o.x {c} {k}: v = 0", "v = [i for i in range(3) if i {c} o.x]", "while o.x {c} -99 and False: pass",
             "v = {k} if o.x {c} {k} else 0"]
-ASSIGNS = ["o.x = {k}", "o.x = v + {k}", "o.x = o.x + {k}", "o.x = o.x", "o.x = v = {k}", "o.x, v = {k}, {k}"]
-AUG_SELF = ["o.x {a} {k}", "o.x {a} v", "o . x {a} {k}", "o.x{a}{k}"]
+ASSIGNS = ["o.x = {k}", "o.x = v + {k}", "o.x = o.x + {k}", "o.x = o.x", "o.x = v = {k}", "o.x, v = {k}, {k}",
+           "o.x = o2.x", "o.x, o2.x = o2.x, o.x"]
+# the right-hand side may read the attribute again, of the same or of another instance of the class
+AUG_SELF = ["o.x {a} {k}", "o.x {a} v", "o . x {a} {k}", "o.x{a}{k}", "o.x {a} o.x", "o.x {a} o2.x",
+            "o.x {a} o.x + {k}", "o.x {a} max(o.x, {k})"]
+# the attribute looked up on the class instead of an instance
+CLASSREAD = ["v = K.x", "v = getattr(K, 'x')", "v = hasattr(K, 'x')", "v = type(o).x", "v = K.x {c} {k}",
+             "v = [n for n in dir(K) if getattr(K, n, None) is None]"]
 AUG_OTHER = ["v {a} o.x", "w[0] {a} o.x", "h.n {a} o.x", "v {a} o.x + {k}"]
 LOCKFORM = ["_, _lock = o.x", "_, _lock  = o.x", "_, _lock = o.x\nwith _lock:\n  o.x = {k}",
             "_, _lock = o.x\nwith _lock:\n  o.x {a} {k}\n  v = o.x {c} {k}",
@@ -34,7 +40,7 @@ ITEMS = ["o.x[0] {a} {k}", "o.x[0] = {k}", "v = o.x[0]", "o.x[-1] {a} v", "o.x[0
          "v = o.x[0] {c} {k}", "o.x.append({k})", "v {a} o.x[0]", "o.x [0] {a} {k}"]
 
 FAMILIES = {"item": ITEMS, "read": READS, "compare": COMPARES, "assign": ASSIGNS, "aug_self": AUG_SELF,
-            "aug_other": AUG_OTHER, "lockform": LOCKFORM, "comment": COMMENTS}
+            "aug_other": AUG_OTHER, "lockform": LOCKFORM, "comment": COMMENTS, "classread": CLASSREAD}
 
 
 @st.composite
@@ -89,7 +95,9 @@ class C28(Prop):
           "integer operator (+= -= *= //= %= **= <<= >>= &= |= ^=), augmented assignments to ANOTHER "
           "variable/subscript/attribute whose right side reads o.x, the documented '_, _lock = o.x' "
           "form alone and followed by a 'with _lock:' block that uses the attribute, trailing comments that mention operators, and statements on the ITEMS "
-          "of an attribute that holds a list (o.x[0] += k, o.x[0] = k, o.x.append(k), ...). The "
+          "of an attribute that holds a list (o.x[0] += k, o.x[0] = k, o.x.append(k), ...), augmented "
+          "assignments whose right side reads the attribute again (o.x += o.x, o.x += o2.x for a second "
+          "instance of the class), and reads of the attribute through the class (K.x, getattr(K, 'x'), dir). The "
           "statement is written to a real source file (miros inspects the caller's source line), "
           "compiled and executed once by the calling thread. Oracle: afterwards the attribute's lock "
           "(threading.RLock substituted in miros.thread_safe_attributes by a depth-counting "
@@ -148,10 +156,12 @@ class C28(Prop):
         raise PropertyViolation("expected one lock for one attribute, found %d" % len(locks), "C28:harness")
       lock = locks[0]
       o = klass()
+      o2 = klass()
       o.x = [case["initial"], 1, 2] if case["family"] == "item" else case["initial"]
+      o2.x = [case["initial"], 1, 2] if case["family"] == "item" else case["initial"]
       path = os.path.join(d, "vf_stmt_case.py")
       body = "\n".join("  " + l for l in stmt.split("\n"))
-      src = "def run(o, v, w, h):\n%s\n  return None\n" % body
+      src = "def run(o, v, w, h, o2, K):\n%s\n  return None\n" % body
       with open(path, "w") as f:
         f.write(src)
       linecache.checkcache(path)
@@ -161,7 +171,7 @@ class C28(Prop):
       class H:
         n = 1
       try:
-        ns["run"](o, 1, [1, 2, 3], H())
+        ns["run"](o, 1, [1, 2, 3], H(), o2, klass)
       except Exception as e:
         raise PropertyViolation("statement %r raised %s: %s" % (stmt, type(e).__name__, e), "C28:raised")
       held = lock.depth
